@@ -117,6 +117,7 @@ func checkC16(p *Prog, r *Report) {
 	ruleCodec(p, r)
 	ruleOwnBytes(p, r)
 	ruleFixFit(p, r)
+	ruleMsgpAll(p, r)
 	ruleUtSet(p, r)
 	r.Floor("UTSET", 6)
 	r.Floor("OWNBYTES", 10)
